@@ -1091,10 +1091,10 @@ KNOWN_FEATURES = {
 from vf.gen.c05_history import history  # noqa: E402
 
 SUBCHECKS = [
-    SubCheck("history", history("all", 10, 30), oracle, quick=2400, thorough=60000, shards_quick=8, shards_thorough=16,
+    SubCheck("history", history("all", 10, 30), oracle, quick=8000, thorough=160000, shards_quick=16, shards_thorough=32,
              essential={"mid_circuit_edit": 0.5, "non_earliest": 0.5, "conflicting_pair": 0.7, "query_between_edits": 0.5}),
-    SubCheck("append_cache", history("append", 8, 24, pool="keys"), oracle, quick=1600, thorough=40000, shards_quick=4, shards_thorough=16,
+    SubCheck("append_cache", history("append", 8, 24, pool="keys"), oracle, quick=5000, thorough=100000, shards_quick=8, shards_thorough=16,
              essential={"query_between_edits": 0.4, "key_ops": 0.5}),
-    SubCheck("queries", history("query", 8, 20), oracle, quick=1200, thorough=30000, shards_quick=4, shards_thorough=16,
+    SubCheck("queries", history("query", 8, 20), oracle, quick=4000, thorough=80000, shards_quick=8, shards_thorough=16,
              essential={"query_between_edits": 0.5}),
 ]
